@@ -18,8 +18,8 @@ PLAN = {
     'C02': [('hist', 120, 1200, 14)],
     'C03': [('hist', 120, 1200, 14)],
     'C04': [('interfere', 24, 200, 0)],
-    'C05': [('crash', 40, 200, 0)],
-    'C06': [('crash', 40, 200, 0), ('fdsync', 4, 16, 0)],
+    'C05': [('crash', 52, 260, 0)],
+    'C06': [('crash', 44, 220, 0), ('fdsync', 4, 16, 0)],
     'C07': [('streamprog', 120, 1200, 0)],
     'C08': [('hist', 120, 1200, 14)],
     'C09': [('hist', 120, 1200, 14)],
@@ -30,7 +30,7 @@ PLAN = {
     'C14': [('hist', 96, 900, 8)],
     'C15': [('backup', 10, 60, 0)],
     'C16': [('hist', 28, 300, 9), ('merge', 1, 1, 0), ('cleanbulk', 10, 57, 0)],
-    'C17': [('fault', 40, 200, 0)],
+    'C17': [('fault', 52, 260, 0)],
     'C18': [('hist', 96, 900, 14), ('fdsync', 4, 16, 0)],
 }
 
